@@ -147,8 +147,10 @@ def h_rows(k0: int, k1: int, k2: int, bs: int) -> bool:
         # each row describes that input: a balanced row is returned as given, the water-deficient row gets its water
         if ks[i] in (0, 9) and not (row["reaction"] == texts[i] and row["solved"]):
             return False
-        if ks[i] == 8 and not (row["reaction"] == TOK[i] + ".O>>" + TOK[i] + ".O" and row["solved"]):
-            return False
+        if ks[i] == 8:
+            sides = row["reaction"].split(">>")
+            if not (row["solved"] and len(sides) == 2 and sorted(sides[0].split(".")) == sorted([TOK[i], "O"]) and sorted(sides[1].split(".")) == sorted([TOK[i], "O"])):
+                return False
     return True
 
 
